@@ -730,3 +730,13 @@ impl<'a, S: RowSource> Drop for WindowState<'a, S> {
         }
     }
 }
+
+/// Verification-only access to the crate-private aggregate state machine (off unless the feature is enabled).
+#[cfg(feature = "kahflane_turdb_verif")]
+pub mod verif_hooks {
+    use super::{AggregateFunction, AggregateState, ExecutorRow};
+    use crate::types::Value;
+    pub fn agg_new() -> AggregateState { AggregateState::new() }
+    pub fn agg_update(s: &mut AggregateState, f: &AggregateFunction, row: &ExecutorRow) { s.update(f, row) }
+    pub fn agg_finalize(s: &AggregateState, f: &AggregateFunction) -> Value<'static> { s.finalize(f) }
+}
